@@ -115,11 +115,22 @@ def run_patch(job):
             return (vid, False, 'seeded change is not reported (exit %d)' % r.returncode)
         if r.returncode == 0:
             return (vid, True, 'silent')
+        if r.returncode == 2 and pid in _undecided().get(name, ()):
+            return (vid, True, 'undecided (exit 2, listed in benign/UNDECIDED.json): no violation reported')
         return (vid, False, 'behaviour-preserving refactoring raised an alarm (exit %d): %s' % (r.returncode, ' | '.join(h[:140] for h in hits[:2])))
     except Exception as e:  # noqa
         return (vid, False, 'self-test harness error: %s: %s' % (type(e).__name__, e))
     finally:
         shutil.rmtree(d, ignore_errors=True)
+
+
+def _undecided():
+    import json
+    try:
+        with open(os.path.join(VERIF, 'benign', 'UNDECIDED.json')) as fd:
+            return {k: tuple(v.get('checks', ())) for k, v in json.load(fd).get('undecided', {}).items()}
+    except (OSError, ValueError):
+        return {}
 
 
 def patch_jobs(pid):
